@@ -248,4 +248,140 @@ theorem hostPart_nosup (c : Cfg) (r : Rules) (h1 : r.forXDP = false) (h2 : r.sup
                 refine ⟨a3, b3, a5, ?_⟩
                 simp [flat, flat_append, flat_map_ev, h5, h6]
 
+theorem tiersDec_mem {al : Label} {d : Dec} {l : Label} (h : tiersDec al d = some l) : l = al ∨ l = .deny := by
+  cases d <;> simp [tiersDec] at h <;> simp [h]
+
+theorem profDec_mem {al : Label} {d : Dec} {l : Label} (h : profDec al d = some l) : l = al ∨ l = .deny := by
+  cases d <;> simp [profDec] at h <;> simp [h]
+
+/-- Labels of the host part: policy-block labels plus the two section labels. -/
+def Label.isHost (l : Label) : Bool := l.isBody || l == TOFH || l == AHP
+
+theorem decides_host (env : Env) (st : List Byte) (r : Rules) (hok : ProgOK env st r) :
+    Decides env st (flat (hostPart env.c r).1) (hostTarget env r (pktOfD st)) ∧
+    (∀ l ∈ labelsOf (flat (hostPart env.c r).1), l.isHost = true) := by
+  have hAHP : isAllowLabel AHP := Or.inr rfl
+  by_cases hx : r.forXDP = true
+  · by_cases hs : r.suppressNormalHostPolicy = true
+    · rw [hostPart_xdp_sup env.c r hx hs]
+      refine ⟨?_, by intro l hl; simp [labelsOf] at hl; subst hl; rfl⟩
+      have := (Decides.nil env st).label AHP
+      simpa [hostTarget, hx, hs] using this
+    · have hs' : r.suppressNormalHostPolicy = false := by simpa using hs
+      rw [hostPart_xdp env.c r hx hs']
+      obtain ⟨d, hl⟩ := tiers_block env st (pktOfD st) .destPreNAT AHP r.hostNormalTiers 0 0 hok.norec hAHP
+        (hok.gHN.plain hok.ctx)
+      have d2 := Decides.seq d (Decides.jump env st .xdpPass) (by intro l _ hm; simp [labelsOf, jump, mkJ] at hm)
+      have d3 := (d2.cons_label TOFH).label AHP
+      refine ⟨d3.congr ?_, ?_⟩
+      · simp only [hostTarget, hx, hs', if_true, Bool.false_eq_true, if_false]
+        cases evalTiers env (pktOfD st) .destPreNAT r.hostNormalTiers <;> simp [tiersDec]
+      · intro l hm
+        simp only [List.cons_append, labelsOf, labelsOf_append, List.mem_cons, List.mem_append] at hm
+        rcases hm with h | (h | h) | h
+        · subst h; rfl
+        · simp [Label.isHost, hl l h]
+        · simp [labelsOf, jump, mkJ] at h
+        · simp [labelsOf] at h; subst h; rfl
+  · have hx' : r.forXDP = false := by simpa using hx
+    obtain ⟨d1, l1⟩ := tiers_block env st (pktOfD st) .destPreNAT AHP r.hostPreDnatTiers 0 0 hok.norec hAHP
+      (hok.gHP.plain hok.ctx)
+    obtain ⟨d3, l3⟩ := tiers_block env st (pktOfD st) .dest AHP r.hostForwardTiers
+      (writeTiers env.c .destPreNAT AHP r.hostPreDnatTiers 0 0).2.1
+      (writeTiers env.c .destPreNAT AHP r.hostPreDnatTiers 0 0).2.2 hok.norec hAHP (hok.gHF.plain hok.ctx)
+    have dX := Decides.seq d3 (Decides.jump env st AHP) (by intro l _ hm; simp [labelsOf, jump, mkJ] at hm)
+    have lX : ∀ l ∈ labelsOf (flat (writeTiers env.c .dest AHP r.hostForwardTiers
+        (writeTiers env.c .destPreNAT AHP r.hostPreDnatTiers 0 0).2.1
+        (writeTiers env.c .destPreNAT AHP r.hostPreDnatTiers 0 0).2.2).1 ++ [jump AHP]), l.isBody = true := by
+      intro l hm
+      rw [labelsOf_append, List.mem_append] at hm
+      rcases hm with h | h
+      · exact l3 l h
+      · simp [labelsOf, jump, mkJ] at h
+    by_cases hs : r.suppressNormalHostPolicy = true
+    · rw [hostPart_sup env.c r hx' hs]
+      have d2 := decides_tofh env st hok.ctx.len AHP
+      have dA1 := Decides.seq d2 dX (by
+        intro l hl; split at hl
+        · cases hl; exact not_mem_of_body lX rfl
+        · cases hl)
+      have lA1 : ∀ l ∈ labelsOf (jumpIfToOrFromHost AHP ++ (flat (writeTiers env.c .dest AHP r.hostForwardTiers
+          (writeTiers env.c .destPreNAT AHP r.hostPreDnatTiers 0 0).2.1
+          (writeTiers env.c .destPreNAT AHP r.hostPreDnatTiers 0 0).2.2).1 ++ [jump AHP])), l.isBody = true := by
+        intro l hm
+        rw [labelsOf_append, List.mem_append] at hm
+        rcases hm with h | h
+        · simp [jumpIfToOrFromHost, labelsOf, load64, andImm64, jumpNEImm64, mk, mkJ] at h
+        · exact lX l h
+      have dA := Decides.seq d1 dA1 (by
+        intro l hl
+        rcases tiersDec_mem hl with rfl | rfl <;> exact not_mem_of_body lA1 rfl)
+      refine ⟨(dA.label AHP).congr ?_, ?_⟩
+      · simp only [hostTarget, hx', hs, Bool.false_eq_true, if_false, if_true]
+        cases evalTiers env (pktOfD st) .destPreNAT r.hostPreDnatTiers <;>
+          cases toOrFromHost (pktOfD st) <;>
+          cases evalTiers env (pktOfD st) .dest r.hostForwardTiers <;> simp [tiersDec]
+      · intro l hm
+        rw [labelsOf_append, labelsOf_append, List.mem_append, List.mem_append] at hm
+        rcases hm with (h | h) | h
+        · simp [Label.isHost, l1 l h]
+        · simp [Label.isHost, lA1 l h]
+        · simp [labelsOf] at h; subst h; rfl
+    · have hs' : r.suppressNormalHostPolicy = false := by simpa using hs
+      obtain ⟨rid3, tid3, rid5, hshape⟩ := hostPart_nosup env.c r hx' hs'
+      rw [hshape]
+      obtain ⟨d5, l5⟩ := tiers_block env st (pktOfD st) .dest AHP r.hostNormalTiers rid3 tid3 hok.norec hAHP
+        (hok.gHN.plain hok.ctx)
+      obtain ⟨d6, l6⟩ := profiles_block env st (pktOfD st) AHP r.hostProfiles r.noProfileMatchID rid5 hok.norec hAHP
+        (hok.gHPR.plain hok.ctx)
+      have dY := Decides.seq d5 d6 (by
+        intro l hl
+        rcases tiersDec_mem hl with rfl | rfl <;> exact not_mem_of_body l6 rfl)
+      have lY : ∀ l ∈ labelsOf (flat (writeTiers env.c .dest AHP r.hostNormalTiers rid3 tid3).1 ++
+          flat (writeProfiles env.c AHP r.hostProfiles r.noProfileMatchID rid5).1), l.isBody = true := by
+        intro l hm
+        rw [labelsOf_append, List.mem_append] at hm
+        rcases hm with h | h
+        · exact l5 l h
+        · exact l6 l h
+      have d2 := decides_tofh env st hok.ctx.len TOFH
+      have dA1 := Decides.branch d2 dX dY (not_mem_of_body lX rfl) (by
+        intro l' hl'
+        have : l' = AHP ∨ l' = .deny := by
+          cases hd : evalTiers env (pktOfD st) .dest r.hostForwardTiers <;> simp [hd, tiersDec] at hl' <;> simp [hl']
+        rcases this with rfl | rfl
+        · exact ⟨by simp, not_mem_of_body lY rfl⟩
+        · exact ⟨by simp, not_mem_of_body lY rfl⟩)
+      have lA1 : ∀ l ∈ labelsOf (jumpIfToOrFromHost TOFH ++ (flat (writeTiers env.c .dest AHP r.hostForwardTiers
+          (writeTiers env.c .destPreNAT AHP r.hostPreDnatTiers 0 0).2.1
+          (writeTiers env.c .destPreNAT AHP r.hostPreDnatTiers 0 0).2.2).1 ++ [jump AHP]) ++ [.label TOFH] ++
+          (flat (writeTiers env.c .dest AHP r.hostNormalTiers rid3 tid3).1 ++
+            flat (writeProfiles env.c AHP r.hostProfiles r.noProfileMatchID rid5).1)),
+          l.isBody = true ∨ l = TOFH := by
+        intro l hm
+        simp only [labelsOf_append, List.mem_append] at hm
+        rcases hm with ((h | h) | h) | h
+        · simp [jumpIfToOrFromHost, labelsOf, load64, andImm64, jumpNEImm64, mk, mkJ] at h
+        · exact Or.inl (lX l (by rw [labelsOf_append, List.mem_append]; exact h))
+        · simp [labelsOf] at h; exact Or.inr h
+        · exact Or.inl (lY l (by rw [labelsOf_append, List.mem_append]; exact h))
+      have dA := Decides.seq d1 dA1 (by
+        intro l hl hm
+        rcases tiersDec_mem hl with rfl | rfl <;> rcases lA1 _ hm with h | h <;> simp [Label.isBody, Label.isRule, Label.isTierEnd] at h)
+      refine ⟨(dA.label AHP).congr ?_, ?_⟩
+      · simp only [hostTarget, hx', hs', Bool.false_eq_true, if_false]
+        cases evalTiers env (pktOfD st) .destPreNAT r.hostPreDnatTiers <;>
+          cases toOrFromHost (pktOfD st) <;>
+          cases evalTiers env (pktOfD st) .dest r.hostForwardTiers <;>
+          cases evalTiers env (pktOfD st) .dest r.hostNormalTiers <;>
+          cases evalProfiles true env (pktOfD st) r.hostProfiles <;> simp [tiersDec, profDec]
+      · intro l hm
+        rw [labelsOf_append, labelsOf_append, List.mem_append, List.mem_append] at hm
+        rcases hm with (h | h) | h
+        · simp [Label.isHost, l1 l h]
+        · rcases lA1 l h with h' | h'
+          · simp [Label.isHost, h']
+          · subst h'; rfl
+        · simp [labelsOf] at h; subst h; rfl
+
 end CalicoVerif.C11
